@@ -46,7 +46,7 @@ class C07(Prop):
                            depth=9, seed=self.seed + 50 + n, collect=True)
             for e in r.printed:
                 if e[0] == "S" and e[1] % 3 == 0:
-                    self.big.append((n, e[3]))
+                    self.big.append((n, e[3], e))
 
     def _poly(self, n, rng, nterms):
         terms = []
@@ -98,16 +98,21 @@ class C07(Prop):
                 if not tor:
                     s["pkg"] = "py"
                 yield s
-        for bi, (n, m) in enumerate(self.big):
+        from .c03 import group_elements
+        for bi, (n, m, e) in enumerate(self.big):
             rows = ins_to_state(m)
             bits = [list(b) for b in itertools.product((0, 1), repeat=n)]
             for r in range(n + 1):
                 obs = [[rng.randrange(4) for _ in range(n)] + [rng.choice((0, 2))] for _ in range(24)]
                 # make sure signed elements of the state's own group and logical operators are present
                 obs += [w[:-1] + [(w[-1] + 2 * rng.randrange(2)) % 4] for w in rows[:n]]
+                # products of up to n generators with exact signs (non-zero expectations), both signs
+                ge = group_elements(e, r)
+                obs += [w[:-1] + [(w[-1] + 2 * rng.randrange(2)) % 4] for w in ge]
                 yield {"k": "expect", "rows": rows, "r": r, "obs": obs}
-                yield {"k": "expect_poly", "kind": "poly", "rows": rows, "r": r, "terms": self._poly(n, rng, 6) + [{"p": rows[n - 1][:-1] + [1], "c": [2, -1]}], "e": 2}
-                n2, m2 = self.big[(bi * 5 + 1) % len(self.big)]
+                yield {"k": "expect_poly", "kind": "poly", "rows": rows, "r": r, "terms": self._poly(n, rng, 6) + [{"p": rows[n - 1][:-1] + [1], "c": [2, -1]}] +
+                       [{"p": w[:-1] + [(w[-1] + rng.randrange(4)) % 4], "c": [rng.randrange(-3, 4), rng.randrange(-3, 4)]} for w in ge[:5]], "e": 2}
+                n2, m2, _e2 = self.big[(bi * 5 + 1) % len(self.big)]
                 if n2 == n:
                     yield {"k": "overlap", "rows": rows, "r": r, "other": {"rows": ins_to_state(m2), "r": rng.randrange(n + 1)}}
                 yield {"k": "prob", "rows": rows, "r": r, "bits": bits if n <= 3 else bits[::3]}
